@@ -213,7 +213,23 @@ pub fn random_op(db: &mut Database, ctx: &mut Ctx, rng: &mut Rng, allow_nonempty
     all_groups.push(root_id);
     let t = ctx.tick();
     for _attempt in 0..8 {
-        match rng.below(9) {
+        match rng.below(10) {
+            9 => {
+                // a node is used, not edited: usage counter and access time change, the modification time does
+                // not (what KeePass does when an entry is opened or a group is expanded)
+                if !es.is_empty() && rng.chance(1, 2) {
+                    let e = entry_mut(&mut db.root, *rng.pick(&es)).unwrap();
+                    e.times.usage_count += 1;
+                    e.times.set_last_access(mk_time(t));
+                    return "touch-entry".into();
+                }
+                let id = if gs.is_empty() || rng.chance(1, 5) { root_id } else { *rng.pick(&gs) };
+                let g = group_mut(&mut db.root, id).unwrap();
+                g.times.usage_count += 1;
+                if rng.chance(1, 3) { g.times.expires = !g.times.expires; }
+                g.times.set_last_access(mk_time(t));
+                return "touch-group".into();
+            }
             0 | 1 if !es.is_empty() => {
                 let id = *rng.pick(&es);
                 edit_entry(entry_mut(&mut db.root, id).unwrap(), t, rng);
@@ -329,7 +345,8 @@ pub fn random_op(db: &mut Database, ctx: &mut Ctx, rng: &mut Rng, allow_nonempty
                 let id = if gs.is_empty() || rng.chance(1, 5) { root_id } else { *rng.pick(&gs) };
                 let g = group_mut(&mut db.root, id).unwrap();
                 if rng.chance(2, 3) {
-                    g.name = format!("renamed{}", t);
+                    // (an empty name is legal)
+                    g.name = if rng.chance(1, 6) { String::new() } else { format!("renamed{}", t) };
                 } else {
                     g.notes = Some(format!("notes{}", t));
                     g.is_expanded = !g.is_expanded;
@@ -532,6 +549,20 @@ pub fn gen_case(rng: &mut Rng, max_ops: u64, subtree_delete: bool) -> Case {
             ops.push(format!("s:{}", random_op(&mut b, &mut ctx, rng, subtree_delete)));
         }
     }
+    // the boundary of "later": sometimes a deletion recorded by the source carries exactly the time at which
+    // the destination last modified that node (the node then stays, and no tombstone is taken over)
+    if subtree_delete && rng.chance(1, 6) {
+        let mut changed = false;
+        for o in b.deleted_objects.objects.iter_mut() {
+            let lm = match (group_ref(&a.root, o.uuid), entry_ref(&a.root, o.uuid)) {
+                (Some(g), _) => g.times.get_last_modification().cloned(),
+                (_, Some(e)) => e.times.get_last_modification().cloned(),
+                _ => None,
+            };
+            if let Some(t) = lm { if rng.chance(1, 2) { o.deletion_time = t; changed = true; } }
+        }
+        if changed { ops.push("s:deletion-at-the-destination's-modification-time".into()); }
+    }
     Case { dest: a, src: b, ops }
 }
 
@@ -609,11 +640,31 @@ pub fn would_be_cycle(dest: &Database, src: &Database) -> bool {
     false
 }
 
+/// the two replicas nest a pair of groups in opposite order: X is below Y in the destination and Y is
+/// below X in the source (computed from the inputs alone)
+pub fn opposite_nesting(dest: &Database, src: &Database) -> bool {
+    fn below(g: &Group, anc: &mut Vec<Uuid>, out: &mut HashSet<(Uuid, Uuid)>) {
+        for c in &g.children {
+            if let Node::Group(s) = c {
+                for a in anc.iter() { out.insert((s.uuid, *a)); }
+                anc.push(s.uuid);
+                below(s, anc, out);
+                anc.pop();
+            }
+        }
+    }
+    let (mut bd, mut bs) = (HashSet::new(), HashSet::new());
+    below(&dest.root, &mut Vec::new(), &mut bd);
+    below(&src.root, &mut Vec::new(), &mut bs);
+    bd.iter().any(|(x, y)| bs.contains(&(*y, *x)))
+}
+
 /// Evaluate the four merge properties on the implementation.  Returns (violation, class).
 pub fn evaluate(prop: &str, c: &Case, first: &MergeRun) -> Option<(String, Option<String>)> {
     let cycle = would_be_cycle(&c.dest, &c.src);
+    let opposite = opposite_nesting(&c.dest, &c.src);
     let cls = |_s: &str| -> Option<String> {
-        if cycle { Some("would-be-cycle".into()) } else { None }
+        if cycle { Some("would-be-cycle".into()) } else if opposite { Some("opposite-nesting".into()) } else { None }
     };
     match first {
         MergeRun::Timeout => {
@@ -951,6 +1002,28 @@ pub fn witnesses() -> Vec<Case> {
         move_group(&mut s, 8, 1, 2007);
         out.push(Case { dest: d, src: s, ops: vec!["d:move-group".into(), "s:move-group".into(), "s:move-group".into()] });
     }
+    {
+        // found by a proof attempt (MergeSuccess: `merge_errors_are_conflicts` is false of the model): the
+        // ancestor is root/{Y/{G}, J}; the destination moved G and J away and back (newer location stamps, same
+        // parents); the source moved G to the root, J into G, Y into J and created K inside G.  While the
+        // source's G is merged, the recursion for J relocates Y - a group on the caller's path - and the
+        // creation of K below the old path fails
+        let mut anc = Database::new(Default::default());
+        anc.root = plain_group(1, 1001);
+        let mut y = plain_group(2, 1002);
+        y.children.push(Node::Group(plain_group(3, 1003)));
+        anc.root.children.push(Node::Group(y));
+        anc.root.children.push(Node::Group(plain_group(5, 1005)));
+        let mut d = anc.clone();
+        let mut s = anc;
+        move_group(&mut d, 3, 2, 2020);
+        move_group(&mut d, 5, 1, 2020);
+        move_group(&mut s, 3, 1, 2010);
+        move_group(&mut s, 5, 3, 2011);
+        move_group(&mut s, 2, 5, 2012);
+        group_mut(&mut s.root, Uuid::from_u128(3)).unwrap().children.push(Node::Group(plain_group(8, 2005)));
+        out.push(Case { dest: d, src: s, ops: vec!["d:move-group".into(), "d:move-group".into(), "s:move-group".into(), "s:move-group".into(), "s:move-group".into(), "s:add-group".into()] });
+    }
     out
 }
 
@@ -1021,7 +1094,7 @@ pub fn run(args: &Args) {
     write_report(
         args,
         &agg,
-        "stream deep-chain: a chain of 26..60 nested groups, a group added at the bottom in both replicas, a rename half-way down (each merge under a 5 s watchdog); streams pairs: random well-formed ancestors (depth <= 3, unique UUIDs, every node with modification and location times, entries with committed histories) x two independent edit histories of total length 0..10 over {edit entry + commit, add entry, add group, move entry, move group, delete entry + tombstone, delete empty group + tombstone, delete subtree with tombstones parent-first or child-first, rename group} under one logical clock with pairwise distinct seconds; non-trivial = the merge reports at least one event; distinct = distinct (destination, source) text",
+        "stream deep-chain: a chain of 26..60 nested groups, a group added at the bottom in both replicas, a rename half-way down (each merge under a 5 s watchdog); streams pairs: random well-formed ancestors (depth <= 3, unique UUIDs, every node with modification and location times, entries with committed histories) x two independent edit histories of total length 0..10 over {edit entry + commit, add entry, add group, move entry, move group, delete entry + tombstone, delete empty group + tombstone, delete subtree with tombstones parent-first or child-first, rename group, use a node (usage counter and access time change, modification time does not)} under one logical clock with pairwise distinct seconds; non-trivial = the merge reports at least one event; distinct = distinct (destination, source) text",
         serde_json::json!({}),
     );
 }
